@@ -348,7 +348,6 @@ func (bsc *BlipSyncContext) handleChangesResponse(ctx context.Context, sender *b
 	// placeholder (probably 0). The item numbers match those of changeArray.
 	var revSendTimeLatency int64
 	var revSendCount int64
-	sentSeqs := make([]SequenceID, 0)
 	alreadyKnownSeqs := make([]SequenceID, 0)
 
 	collectionCtx, err := bsc.collections.get(collectionIdx)
@@ -402,10 +401,6 @@ func (bsc *BlipSyncContext) handleChangesResponse(ctx context.Context, sender *b
 			}
 			revSendTimeLatency += time.Since(changesResponseReceived).Nanoseconds()
 			revSendCount++
-
-			if collectionCtx.sgr2PushAddExpectedSeqsCallback != nil {
-				sentSeqs = append(sentSeqs, seq)
-			}
 		} else {
 			base.DebugfCtx(bsc.loggingCtx, base.KeySync, "Peer didn't want revision %s / %s (seq:%v)", base.UD(docID), rev, seq)
 			if collectionCtx.sgr2PushAlreadyKnownSeqsCallback != nil {
@@ -414,14 +409,15 @@ func (bsc *BlipSyncContext) handleChangesResponse(ctx context.Context, sender *b
 		}
 	}
 
-	// Announce the sent sequences as expected before reporting the already known ones: a checkpoint taken between the
-	// two notifications must not move past a sent revision that hasn't been acknowledged yet.
-	if revSendCount > 0 && collectionCtx.sgr2PushAddExpectedSeqsCallback != nil {
-		collectionCtx.sgr2PushAddExpectedSeqsCallback(sentSeqs...)
-	}
+	// The whole batch was announced to the checkpointer as expected when the changes message was sent (sendBatchOfChanges).
+	// Sent revisions are reported as processed when they are acknowledged; the ones the peer did not ask for, including
+	// entries it left out at the end of its answer, are done now.
 	verifPoint("push-changes-response-between-known-and-expected")
 
 	if collectionCtx.sgr2PushAlreadyKnownSeqsCallback != nil {
+		for i := len(answer); i < len(changeArray); i++ {
+			alreadyKnownSeqs = append(alreadyKnownSeqs, changeArray[i][0].(SequenceID))
+		}
 		collectionCtx.sgr2PushAlreadyKnownSeqsCallback(alreadyKnownSeqs...)
 	}
 
